@@ -170,6 +170,17 @@ CHECKS = {
             "minimalloc's own correctness assumed (contract stub); dynamic mode out of scope; lifetime programs sampled by VERIF_SEED "
             "(2..3 buffers, nesting <= 2).",
             "symbolic execution of the real passes (int proxies as IR constants) + symbolic IR interpreter + z3; nondeterministic contract stub for the external solver", "3/C11"),
+    "C13": (OT,
+            "Generated functions mixing memref.copy (data mover), linalg.generic (compute core) and un-dispatched consumers on shared "
+            "allocations and function arguments, subviews with symbolic offsets, nested loops with symbolic and constant (partial "
+            "last tile, single trip) ranges, pre-existing barriers and deallocs go through the real insert-sync-barrier. The output "
+            "is executed on a barrier-synchronised multi-core machine (symbolic IR interpreter): barriers cut each path into epochs "
+            "and for every pair of accesses in one epoch that can come from different cores with at least one write, z3 proves the "
+            "two regions (root buffer, symbolic element interval) disjoint under the path condition; every path executes the same "
+            "number of barriers on every core.",
+            "programs sampled by VERIF_SEED; K=2 unrolling (back edge = iteration k+1 after k); nesting <= 2; three recorded known "
+            "findings (alias views, un-dispatched reader before a dispatched writer) are suppressed by signature only.",
+            "bounded symbolic execution of the pass output on an epoch/race machine; region disjointness discharged by z3 per access pair", "3/C13"),
     "C14": (TV,
             "Translation validation of dispatch-regions{nb_cores=N} (N in {2,3,4,8}): generated functions (nested scf.for/scf.if, "
             "memref.copy, linalg.generic, dart streaming regions on snax_gemmx/snax_xdma, other ops, adjacent and separated, optionally "
